@@ -135,7 +135,8 @@ func (b *Built) Args(r *rand.Rand) []am.Arg {
 		}
 		out = append(out[:pos], append([]am.Arg{nil}, out[pos:]...)...)
 	case "nilvalue":
-		out = append(out, am.Named("zz", nil), am.Typed(nil), am.NamedSubtype("zz", nil, "s"), am.TypedSubtype(nil, "s"), am.ConverterFunc(nil))
+		out = append(out, am.Named("zz", nil), am.Typed(nil), am.NamedSubtype("zz", nil, "s"), am.TypedSubtype(nil, "s"), am.ConverterFunc(nil),
+			am.Logger(nil), am.ConverterGen(nil), am.FilterInput(nil), am.FilterOutput(nil))
 	case "nonfunc":
 		out = append(out, am.Converter(42))
 	case "nilconv":
